@@ -13,13 +13,30 @@ func init() {
 			"(R04.2) every value handed to newVoteproof is an element of a record's count/countHolded result or the ballot's embedded voteproof after voteproofFromBallots accepted it; count returns only values from voteproofFromBallot (validated by isaac.IsValidVoteproofWithSuffrage through the record's validator, threshold not below the local one, filter passed) or countFromVoted (built by the record's own constructor); " +
 			"(R04.3) voteproof constructors receive the record's own stage point and the constructor's stage matches the record's stage; " +
 			"(R04.4) every sign fact stored into a record's voted set is keyed by its node and was checked against the suffrage public key (directly or via isValidBallot); " +
-			"(R04.5) the record a ballot is stored in is looked up with the point and suffrage-confirm flag of that same ballot's fact; (R04.7) record fields are accessed under the record lock.; (R04.9) countWithExpels counts expel votes against the pair the validator recounts with (suffrage without the expelled, 100%) in every iteration — violated today, known finding",
+			"(R04.5) the record a ballot is stored in is looked up with the point and suffrage-confirm flag of that same ballot's fact; (R04.7) record fields are accessed under the record lock.; (R04.9) countWithExpels counts expel votes against the pair the validator recounts with (suffrage without the expelled, 100%) in every iteration — violated today, known finding; (R04.10) a valid threshold is a number; (R04.11) a voteproof taken from a ballot is accepted only with the local threshold — violated today, known finding",
 		NotDecided: "equality of the emitted result with a fresh recount for all vote sets (C01); stuck voteproofs built from copyVoted; scheduling of concurrent voters beyond lock discipline.",
 		Run:        runC04,
 	})
 }
 
 func runC04(c *Ctx) {
+	// R04.10: the threshold a voteproof declares is what other nodes recount it with; a declared value is
+	// valid only if it is a number (every ordinary comparison is false for NaN)
+	c.Rule("R04.10", "MustPass")
+	if fn := c.Need("base.(Threshold).IsValid"); fn != nil {
+		c.MP(fn, "a valid threshold is a number", c.SuccessReturns(fn), 1, GFalse("math.IsNaN(*)"), GCmp("t", "==", "t"))
+	}
+	c.Rule("R04.11", "MustPass")
+	// R04.11: "its result equals a fresh recount": a voteproof taken from a ballot is emitted only if it
+	// declares the local threshold (or was recounted with it); a higher declared threshold turns
+	// NOT YET into DRAW
+	if fn := c.Need("isaac/states.(*voterecords).voteproofFromBallots"); fn != nil {
+		acc := c.ReturnsD(fn, 0, "true")
+		exact := allOK(c.MustPass(fn, nil, acc, GCmp("vp.Threshold()", "==", "threshold"), GTrue("vp.Threshold().Equal(threshold)"), GTrue("threshold.Equal(vp.Threshold())"),
+			GOk("base.IsValidVoteproofWithSuffrage(vp, *, threshold)")))
+		c.Report(fn, "a voteproof from a ballot is accepted only with the local threshold (declared equal, or recounted with it)", fn.Pos(), len(acc) > 0 && exact,
+			"accepted whenever the declared threshold is not below the local one; the recount (isValidVoteproof) uses the declared threshold")
+	}
 	// R04.9: what the ballotbox emits must pass the validation other nodes apply. For a voteproof with
 	// expels isaac.IsValidVoteproofWithSuffrage always recounts over (suffrage without the expelled,
 	// 100%) — C03 R03.1p; countWithExpels must count against that pair in every iteration.
